@@ -487,6 +487,7 @@ def job_interleave(spec, res):
             live = list(range(len(gens)))
             order = []
             track = {}  # g -> [always, ever] while the query runs
+            ever_res, ever_links = {}, {}  # page -> webentities it ever resolved to; (s, t) -> max weight
             results = {}
             while live:
                 g = r.choice(live)
@@ -503,6 +504,8 @@ def job_interleave(spec, res):
                 except StopIteration:
                     live.remove(g)
                 # every state a running query could have observed
+                if any(gens[g2][0] == "net" and g2 not in results or g2 == g for g2 in track):
+                    _note_links(t, ever_res, ever_links)
                 for g2, tr in track.items():
                     if g2 in results and g2 != g:
                         continue
@@ -534,7 +537,12 @@ def job_interleave(spec, res):
                         for b_, c in d.items():
                             if b_ in ("pages_crawled", "pages_uncrawled"):
                                 continue
-                            expect(c <= ever.get((a, b_), 0), "C16: network weight exceeds what qualified at any moment", dict(det, edge=[a, b_, c]))
+                            # an edge must have existed at some moment; its weight cannot exceed
+                            # the page links whose ends resolved to (a, b_) at SOME moment each
+                            # (the builder resolves pages and walks links at different moments:
+                            # a rule installed in between moves pages to a new webentity)
+                            expect(ever.get((a, b_), 0) > 0 or _bound(ever_res, ever_links, a, b_) > 0, "C16: network holds an edge that qualified at no moment", dict(det, edge=[a, b_, c]))
+                            expect(c <= max(ever.get((a, b_), 0), _bound(ever_res, ever_links, a, b_)), "C16: network weight exceeds the page links that could ever contribute to it", dict(det, edge=[a, b_, c], bound=_bound(ever_res, ever_links, a, b_)))
                     for (a, b_), c in always.items():
                         expect(val.get(a, {}).get(b_, 0) >= c, "C16: network misses links that qualified throughout", dict(det, edge=[a, b_, c]))
             # read-only requests advanced in turns on the final index (no writer
@@ -586,6 +594,31 @@ def job_interleave(spec, res):
         res["sample"] = {"batches": enc(batches), "schedules": nsched}
     finally:
         tis.TraphIteratorState.should_yield = orig_sy
+
+
+def _note_links(t, ever_res, ever_links):
+    # (the yielding Traph class lives in a rewritten copy of the module: its
+    # TraphException is another class object, hence the test by name)
+    for n_, l in t.pages_iter():
+        try:
+            w = t.retrieve_webentity(l)
+        except Exception as e:
+            if type(e).__name__ != "TraphException":
+                raise
+            w = None
+        if w is not None:
+            ever_res.setdefault(l, set()).add(w)
+    for l in list(ever_res):
+        try:
+            for a_, b_, wt in t.get_page_links(l, include_inbound=False):
+                ever_links[(a_, b_)] = max(ever_links.get((a_, b_), 0), wt)
+        except Exception as e:
+            if type(e).__name__ != "TraphException":
+                raise
+
+
+def _bound(ever_res, ever_links, a, b):
+    return sum(wt for (s_, t_), wt in ever_links.items() if a in ever_res.get(s_, ()) and b in ever_res.get(t_, ()))
 
 
 def _qstate(t, nm):
@@ -784,6 +817,23 @@ def variations_cases(tokens_hosts, max_hosts, paths, max_path):
                         continue
                     for np_ in range(0, max_path + 1):
                         for pp in itertools.product(paths, repeat=np_):
+                            # C17 quantifies over LRUs whose host stems are contiguous: a
+                            # stem typed `h:` (or `s:` / `t:`) after a path stem is outside
+                            # (directly after the hosts an `h:` stem is just one more host)
+                            seen_path = False
+                            ok = True
+                            for st_ in pp:
+                                typed = st_[:2] in (b"h:", b"s:", b"t:")
+                                if typed and (seen_path or st_[:2] != b"h:"):
+                                    ok = False
+                                    break
+                                if not typed:
+                                    seen_path = True
+                            if not ok:
+                                continue
+                            hosts_all = list(hs) + [x for x in pp if x[:2] == b"h:"]
+                            if len(hosts_all) >= 2 and hosts_all[-1] == b"h:www|" and hosts_all[-2] == b"h:www|":
+                                continue
                             yield s + p + b"".join(hs) + b"".join(pp)
 
 
